@@ -1,46 +1,56 @@
 #!/usr/bin/env python3
 """Mutation self-test of the pyvc engine (runs under python3-vt). Exit 0 iff every corpus entry behaves as expected."""
-import json, os, shutil, subprocess, sys, tempfile
+import json, multiprocessing, os, shutil, subprocess, sys, tempfile
 VERIF = os.path.dirname(os.path.dirname(os.path.abspath(__file__)))
 sys.path.insert(0, VERIF)
 from pyvc.driver import MODELS, load_contracts  # noqa: E402
 from pyvc.verify import verify_contract  # noqa: E402
 
 
+def run_entry(args: tuple) -> tuple:
+    index, entry, scratch = args
+    contracts = load_contracts()
+    by_target = {c.target: c for c in contracts.values() if not c.__dict__.get("variant", False)}
+    tree = os.path.join(scratch, f"tree{index}")
+    subprocess.check_call(["rsync", "-a", "--include=*/", "--include=*.py", "--exclude=*", "/repo/antismash", tree + "/"])
+    try:
+        path = os.path.join(tree, entry["file"])
+        text = open(path, encoding="utf-8").read()
+        if entry["old"] not in text:
+            return index, "skip", f"SKIP (source changed, pattern not found): {entry['contract']} {entry['old'][:50]!r}"
+        open(path, "w", encoding="utf-8").write(text.replace(entry["old"], entry["new"], 1))
+        res = verify_contract(tree, contracts[entry["contract"]], by_target, MODELS, 10000, open_findings=[])
+        failed = [o for o in res["obligations"] if o["status"] == "failed"]
+        if not failed and any(o["status"] == "undecided" for o in res["obligations"]):
+            # as the driver does: obligations left open by the solvers are followed by the counterexample search
+            small = verify_contract(tree, contracts[entry["contract"]], by_target, MODELS, 10000, mode="small", open_findings=[])
+            failed = [o for o in small["obligations"] if o["status"] == "failed" and o["kind"] != "unwind"]
+        if res["out_of_subset"] or res.get("engine_error"):
+            verdict = "unsupported"
+        else:
+            verdict = "refuted" if failed else "same"
+        ok = verdict == entry["expect"]
+        # every corpus entry stays inside the supported subset: "unsupported" here means the engine lost
+        # a function it used to verify (a silent loss of coverage), so it fails the self-test
+        line = " ".join(["ok   " if ok else "WRONG", entry["contract"], "expected", entry["expect"], "got", verdict,
+                         (res["out_of_subset"] or "")[:100]])
+        return index, "ok" if ok else "bad", line
+    finally:
+        shutil.rmtree(tree, ignore_errors=True)
+
+
 def main() -> int:
     corpus = json.load(open(os.path.join(VERIF, "selftest", "corpus.json")))["mutations"]
     limit = int(sys.argv[1]) if len(sys.argv) > 1 else len(corpus)
-    contracts = load_contracts()
-    by_target = {c.target: c for c in contracts.values() if not c.__dict__.get("variant", False)}
     scratch = tempfile.mkdtemp(prefix="pyvc-selftest-")
     bad = 0
     try:
-        for entry in corpus[:limit]:
-            tree = os.path.join(scratch, "tree")
-            shutil.rmtree(tree, ignore_errors=True)
-            subprocess.check_call(["rsync", "-a", "--include=*/", "--include=*.py", "--exclude=*", "/repo/antismash", tree + "/"])
-            path = os.path.join(tree, entry["file"])
-            text = open(path, encoding="utf-8").read()
-            if entry["old"] not in text:
-                print(f"SKIP (source changed, pattern not found): {entry['contract']} {entry['old'][:50]!r}")
-                continue
-            open(path, "w", encoding="utf-8").write(text.replace(entry["old"], entry["new"], 1))
-            res = verify_contract(tree, contracts[entry["contract"]], by_target, MODELS, 10000, open_findings=[])
-            failed = [o for o in res["obligations"] if o["status"] == "failed"]
-            if not failed and any(o["status"] == "undecided" for o in res["obligations"]):
-                # as the driver does: obligations left open by the solvers are followed by the counterexample search
-                small = verify_contract(tree, contracts[entry["contract"]], by_target, MODELS, 10000, mode="small", open_findings=[])
-                failed = [o for o in small["obligations"] if o["status"] == "failed" and o["kind"] != "unwind"]
-            if res["out_of_subset"] or res.get("engine_error"):
-                verdict = "unsupported"
-            else:
-                verdict = "refuted" if failed else "same"
-            ok = verdict == entry["expect"]
-            # every corpus entry stays inside the supported subset: "unsupported" here means the engine lost
-            # a function it used to verify (a silent loss of coverage), so it fails the self-test
-            bad += 0 if ok else 1
-            print(("ok   " if ok else "WRONG"), entry["contract"], "expected", entry["expect"], "got", verdict,
-                  (res["out_of_subset"] or "")[:100])
+        ctx = multiprocessing.get_context("fork")
+        with ctx.Pool(8) as pool:
+            results = pool.map(run_entry, [(i, entry, scratch) for i, entry in enumerate(corpus[:limit])])
+        for _, status, line in sorted(results):
+            print(line)
+            bad += status == "bad"
     finally:
         shutil.rmtree(scratch, ignore_errors=True)
     return 1 if bad else 0
